@@ -2,7 +2,8 @@
    Model: Model/MessageM.v (to_wire = Message.to_wire with Renderer).  Proofs: Proofs/MessageSize.v *)
 From DV Require Import Base.Prelude Model.NameM Model.MessageM.
 From DV Require Import Proofs.MessageRender Proofs.MessageSize Proofs.MessagePad Proofs.MessageTrunc.
-From DV Require Import Proofs.MessageRead Proofs.MessageRoundtrip Proofs.MessageRoundtrip2 Proofs.MessageRoundtrip3 Proofs.MessageTruncParse.
+From DV Require Import Proofs.MessageRead Proofs.MessageRoundtrip Proofs.MessageRoundtrip2 Proofs.MessageRoundtrip3 Proofs.MessageTruncParse Proofs.MessageUpdate Proofs.MessageLimit Proofs.MessageApi.
+From DV Require Import Proofs.NameCompress.
 Open Scope Z_scope.
 
 (* a rendered message never exceeds its effective limit (512 <= limit <= 65535 after the clamp) *)
@@ -53,9 +54,15 @@ Print Assumptions trunc_prefix.
 
 (* ... and it parses back to exactly that prefix message: same id, flags with TC as stated, TSIG record,
    per section the kept record sets, and the OPT record (with the padding option appended when a block
-   size is given) - for every padding block size, with or without origin.  _partial: for well-formed
-   ordinary messages of the RDATA types modelled in C03 (WfMsg); dynamic updates are not covered *)
-Theorem trunc_parses_partial : forall o pad m max_size request_payload w,
+   size is given) - for every padding block size, with or without origin.
+   Hypotheses (the ones of C03 render_parse): WfMsg o m - any opcode but UPDATE (updates: next theorem),
+   names absolute-and-not-below-the-origin or relative, TTL <= 2^31-1, distinct record-set keys and distinct
+   RDATA per set, and every record set of a type/class for which MessageM.schema_of gives the reader's field
+   list: A NS CNAME SOA PTR MX TXT AAAA SRV RRSIG (class IN; NS CNAME SOA PTR MX TXT RRSIG in any class) and
+   every type without a codec in dns/rdtypes (generic form).  Types with a codec outside that list
+   (MessageM.any_types / in_types minus the above) are outside the theorem; they are exercised by the
+   oracle of the limit sweep only. *)
+Theorem trunc_parses : forall o pad m max_size request_payload w,
   org_ok o -> WfMsg o m -> wf_tsig m -> to_wire m o max_size request_payload true pad = Ok w ->
   exists q1 q2 a1 a2 u1 u2 d1 d2 m',
     mq m = q1 ++ q2 /\ man m = a1 ++ a2 /\ mau m = u1 ++ u2 /\ mad m = d1 ++ d2 /\
@@ -63,16 +70,76 @@ Theorem trunc_parses_partial : forall o pad m max_size request_payload w,
     from_wire w o po0 = Ok m' /\
     msg_equiv_p pad m' (cut_msg m (if cut_before q2 a2 u2 then Z.lor (mflags m) fTC else mflags m) q1 a1 u1 d1).
 Proof. exact trunc_parses_pad_lemma. Qed.
-Print Assumptions trunc_parses_partial.
+Print Assumptions trunc_parses.
+
+(* the same for dynamic updates (WfUpd: zone section, all prerequisite / delete / add forms): when the zone
+   section is kept (q2 = []; it is cut only if the reserved OPT/TSIG octets leave no room for it) the result
+   parses back to the update cut to a prefix of its record sets *)
+Theorem trunc_parses_update : forall o pad m z max_size request_payload w,
+  org_ok o -> WfUpd o m z -> wf_tsig m -> to_wire m o max_size request_payload true pad = Ok w ->
+  exists q1 q2 a1 a2 u1 u2 d1 d2,
+    mq m = q1 ++ q2 /\ man m = a1 ++ a2 /\ mau m = u1 ++ u2 /\ mad m = d1 ++ d2 /\
+    (q2 <> [] -> a1 = [] /\ u1 = [] /\ d1 = []) /\ (a2 <> [] -> u1 = [] /\ d1 = []) /\ (u2 <> [] -> d1 = []) /\
+    (q2 = [] ->
+     exists m', from_wire w o po0 = Ok m' /\
+       msg_equiv_p pad m' (cut_msg m (if cut_before q2 a2 u2 then Z.lor (mflags m) fTC else mflags m) q1 a1 u1 d1)).
+Proof. exact trunc_parses_update_lemma. Qed.
+Print Assumptions trunc_parses_update.
+
+(* ---- the limit itself ---- *)
+(* max_size = 0 means the request payload, else 65535; limits are clamped to 512..65535; nothing else
+   (in particular not the payload advertised by the message's own OPT record) enters the limit *)
+Theorem limit_defaulting : forall m o max_size request_payload prefer_truncation pad,
+  to_wire m o max_size request_payload prefer_truncation pad =
+  to_wire m o (clamp (if max_size =? 0 then (if request_payload =? 0 then 65535 else request_payload) else max_size))
+          0 prefer_truncation pad.
+Proof. exact limit_defaulting_lemma. Qed.
+Print Assumptions limit_defaulting.
+
+(* without prefer_truncation: a rendering that succeeds at one limit is the rendering at every larger limit
+   (any message, TSIG, padding) *)
+Theorem limit_monotone : forall m o max_size request_payload max_size' request_payload' pad w,
+  to_wire m o max_size request_payload false pad = Ok w ->
+  eff_limit max_size request_payload <= eff_limit max_size' request_payload' ->
+  to_wire m o max_size' request_payload' false pad = Ok w.
+Proof. exact limit_monotone_lemma. Qed.
+Print Assumptions limit_monotone.
+
+(* ... and TooBig is raised exactly when the full rendering exceeds the effective limit: with neither a
+   TSIG record nor padding (then the reserve is exactly the OPT record) the result at any other limit is the
+   same octets if they fit and TooBig otherwise *)
+Theorem toobig_exact : forall m o max_size request_payload max_size' request_payload' w,
+  mtsig m = None -> to_wire m o max_size request_payload false 0 = Ok w ->
+  compute_opt_reserve m 0 + 12 <= eff_limit max_size' request_payload' ->
+  to_wire m o max_size' request_payload' false 0 =
+  if zlen w <=? eff_limit max_size' request_payload' then Ok w else Lib eTooBig.
+Proof. exact toobig_exact_lemma. Qed.
+Print Assumptions toobig_exact.
 
 (* when padding is requested (and the message has an OPT record to carry it) the final length,
    TSIG included, is a multiple of the block size - for every message, origin, limit and key name
-   (the repaired code writes the TSIG owner uncompressed after padding; commit d2163b7) *)
+   (the repaired code writes the TSIG owner uncompressed after padding; commit 5e0f3f6) *)
 Theorem pad_multiple : forall m origin max_size request_payload prefer_truncation pad o w,
   0 < pad -> mopt m = Some o ->
   to_wire m origin max_size request_payload prefer_truncation pad = Ok w -> zlen w mod pad = 0.
 Proof. exact pad_multiple_lemma. Qed.
 Print Assumptions pad_multiple.
+
+(* ---- dns.renderer.Renderer used directly ---- *)
+(* a Renderer created with max_size, after ANY sequence of add_question / add_rrset / reserve /
+   release_reserved / add_opt (any padding arguments) / write_header / _write_tsig calls in any order, with
+   TooBig caught by the caller and the sequence continued (MessageM.run_rops): the output is at most
+   max(12, max_size) octets; the four header counts add up to the records of the calls that were accepted
+   (a call that raised TooBig counts nothing: it was rolled back whole); every compression-table offset lies
+   inside the output and decodes there - header included, whatever was written into it - to its key *)
+Theorem renderer_api_invariant : forall origin id flags max_size ops res r,
+  run_rops origin id ops (mkRst (repeat 0 12) [] 0 0 0 0 0 flags max_size 0 false) [] = (res, r) ->
+  12 <= zlen (out r) <= Z.max 12 max_size /\
+  cq r + can r + cau r + cad r = accepted origin id ops (mkRst (repeat 0 12) [] 0 0 0 0 0 flags max_size 0 false) /\
+  Forall (fun kv => snd kv < zlen (out r)) (tbl r) /\
+  TableSound (out r) (tbl r).
+Proof. exact renderer_api_invariant_lemma. Qed.
+Print Assumptions renderer_api_invariant.
 
 (* ---- non-vacuity: a message that is truncated at limit 512, and one rolled-back record set ---- *)
 Definition ex_rr (k : Z) : rrset :=
